@@ -80,6 +80,7 @@ type FuncSpec struct {
 	Callsites []*CallsiteSpec
 	Ints      string
 	Holds     []*SExpr
+	Callback  bool
 	Inline    bool // always inline rather than use the contract
 	NoInline  bool
 	Trusted   bool // contract is assumed, body not verified (only in /verif/assumed)
@@ -498,6 +499,11 @@ func (db *SpecDB) LoadSpecFile(path, pkg string, assumed bool) error {
 			}
 			c.Name = m[1]
 			curCS.Updates = append(curCS.Updates, c)
+		case "callback":
+			if cur == nil {
+				return fail(fmt.Errorf("callback outside func"))
+			}
+			cur.Callback = true // calls user code (handlers) synchronously: callers must not hold a lock across it
 		case "holds":
 			if cur == nil {
 				return fail(fmt.Errorf("holds outside func"))
